@@ -42,13 +42,14 @@ class Witness:
 
 
 class ExcAnalysis:
-    def __init__(self, A, prim_hook=None, cut=(), ignore_ext_calls=True):
+    def __init__(self, A, prim_hook=None, cut=(), ignore_ext_calls=True, site_tags=False):
         """prim_hook(node, fn, self_cls, ctx) -> iterable of (exc name, text)
         for tier-2 primitives; cut = qualnames of functions treated as raising
         nothing (used to set the re-bring-up chain apart)."""
         self.A = A
         self.P = A.P
         self.prim_hook = prim_hook
+        self.site_tags = site_tags
         self.cut = set(cut)
         self._esc = {}
         self._final = set()
@@ -62,6 +63,8 @@ class ExcAnalysis:
 
     # -- class lattice -------------------------------------------------------
     def ancestors(self, name):
+        if "@" in name:
+            return [name] + self.ancestors(name.split("@", 1)[0])
         out = [name]
         cis = self._class_by_name.get(name)
         if cis:
@@ -180,6 +183,8 @@ class ExcAnalysis:
                 return out
             names = self.class_names_of(st.exc, fn, sc)
             for nm in names or ["Exception"]:
+                if self.site_tags:
+                    nm = f"{nm}@{fn.qualname}:{st.lineno}"
                 out.setdefault(nm, Witness([(fn.qualname, st.lineno, norm(st)[:90])]))
             return out
         if isinstance(st, ast.Try):
@@ -260,5 +265,7 @@ class ExcAnalysis:
                         out.setdefault(e, w.extend(fn, n))
             if self.prim_hook is not None:
                 for (e, text) in self.prim_hook(n, fn, sc, self) or ():
+                    if self.site_tags:
+                        e = f"{e}@{fn.qualname}:{getattr(n, 'lineno', 0)}:{getattr(n, 'col_offset', 0)}"
                     out.setdefault(e, Witness([(fn.qualname, getattr(n, "lineno", 0), text)]))
         return out
